@@ -246,6 +246,10 @@ class Profiles:
         macros these are used in one go. Using `addProfile` instead my be
         **very** slow instead.
         """
+        # profiles registered before or named twice must see the new macros too
+        names = [profile for profile, properties, macros in profiles]
+        reset = bool(self._profileNames) or len(set(names)) != len(names)
+
         # add macros
         for profile, properties, macros in profiles:
             if macros:
@@ -255,6 +259,10 @@ class Profiles:
         # only add new properties
         for profile, properties, macros in profiles:
             self.addProfile(profile, properties.copy(), None)
+
+        if reset:
+            self._resetProperties()
+            self.__update_knownNames()
 
     def addProfile(self, profile, properties, macros=None):
         """Add a new profile with name `profile` (e.g. 'CSS level 2')
@@ -280,7 +288,11 @@ class Profiles:
             predefined basic macros which may always be used in
             ``Profiles._TOKEN_MACROS`` and ``Profiles._MACROS``.
         """
-        if macros:
+        # a profile of this name with other macros may have been registered
+        replaced = profile in self._profileNames and bool(macros)
+        if replaced:
+            pass
+        elif macros:
             # check if known macros would change and if yes reset properties
             if len(set(macros.keys()).intersection(list(self._usedMacros.keys()))):
                 self._resetProperties(newMacros=macros)
@@ -303,9 +315,13 @@ class Profiles:
             'properties': properties.copy(),
             'macros': macros.copy(),
         }
-        # prepare and save properties
-        properties = self._expand_macros(properties, self._usedMacros)
-        self._profilesProperties[profile] = self._compile_regexes(properties)
+        if replaced:
+            # macros of the replaced profile are gone: start from the raw values
+            self._resetProperties()
+        else:
+            # prepare and save properties
+            properties = self._expand_macros(properties, self._usedMacros)
+            self._profilesProperties[profile] = self._compile_regexes(properties)
 
         self.__update_knownNames()
 
@@ -328,6 +344,8 @@ class Profiles:
             self._profilesProperties.clear()
             self._rawProfiles.clear()
             del self._profileNames[:]
+            self._usedMacros = Profiles._TOKEN_MACROS.copy()
+            self._usedMacros.update(Profiles._MACROS.copy())
         else:
             reset = False
 
